@@ -2,7 +2,9 @@ package main
 
 import (
 	"fmt"
+	"go/constant"
 	"go/token"
+	"regexp"
 
 	"golang.org/x/tools/go/ssa"
 )
@@ -119,3 +121,50 @@ func ruleURISurrogate(c *Ctx, r *R) {
 	r.check(both >= 2 || fffd, ssaFuncName(enc)+":pair-low", site, "the code unit after a high surrogate is tested against DC00..DFFF as well (or the decoded pair against U+FFFD)",
 		fmt.Sprintf("%s tests only one code unit against the low-surrogate range DC00..DFFF: the unit that follows a high surrogate is combined without being checked (ES5 15.1.3 Encode step 4.d.iv.4 throws a URIError) - encodeURI(String.fromCharCode(0xD800, 0x41)) gives %%EF%%BF%%BD and the A is lost", ssaFuncName(enc)))
 }
+
+func init() {
+	register(&Rule{ID: "FORMAT-hexwidth", Props: []string{"C13"}, Min: 1,
+		Doc: "T (ES5 B.2.1 step 6 / 15.1.3: a percent escape is `%` followed by exactly two hexadecimal digits, `%u` by exactly four): no constant printf format of package otto writes a percent escape with a variable number of digits - `%%` (or `%%u`) directly followed by a hexadecimal verb without a zero-padded width (`%%%X` instead of `%%%02X`). With it escape('\\n') is `%A`, which unescape reads back as something else. Expected count on the pinned tree is zero (the escapes are built from a digit table); the rule's positive example is the own mutant escape-hex-unpadded",
+		Run: ruleFormatHexWidth})
+}
+
+func ruleFormatHexWidth(c *Ctx, r *R) {
+	n := 0
+	ord := map[string]int{}
+	for _, fn := range c.AllSrcFuncs("") {
+		for _, b := range fn.Blocks {
+			for _, ins := range b.Instrs {
+				call, ok := ins.(ssa.CallInstruction)
+				if !ok {
+					continue
+				}
+				cal := call.Common().StaticCallee()
+				if cal == nil || cal.Pkg == nil || cal.Pkg.Pkg.Path() != "fmt" {
+					continue
+				}
+				for _, a := range call.Common().Args {
+					k, ok := a.(*ssa.Const)
+					if !ok || k.Value == nil || k.Value.Kind() != constant.String {
+						continue
+					}
+					format := constant.StringVal(k.Value)
+					n++
+					if loc := hexEscapeUnpadded.FindString(format); loc != "" {
+						base := ssaFuncName(fn)
+						ord[base]++
+						r.bad(fmt.Sprintf("%s:format#%d", base, ord[base]), c.Pos(instrPos(call)),
+							fmt.Sprintf("%s formats a percent escape with %q: the hexadecimal verb has no zero-padded width, so a code unit below 0x10 (or 0x1000 after %%u) is written with fewer digits than the two (four) ES5 B.2.1 / 15.1.3 require - escape('\\n') gives `%%A`, and unescape(escape(s)) is no longer s", ssaFuncName(fn), loc))
+					}
+				}
+			}
+		}
+	}
+	if n < 30 {
+		r.undecided("census", "-", fmt.Sprintf("only %d constant formats found in package otto (more than 70 on the pinned tree): the census no longer sees the formatter calls", n))
+		return
+	}
+	r.ok("census", "-", fmt.Sprintf("%d constant formats of package otto examined, none writes a percent escape with an unpadded hexadecimal verb", n))
+}
+
+// `%%` or `%%u` followed by a hex verb with no width, or with a width that is not zero-padded
+var hexEscapeUnpadded = regexp.MustCompile(`%%u?%[1-9]?[xX]`)
